@@ -58,7 +58,79 @@ type vwPaged struct {
 	Totals  []uint64   `json:"totals"`
 }
 
+type vwVIn struct {
+	ID    string `json:"id"`
+	Addr  string `json:"addr"`
+	Coins []int  `json:"coins"`
+	Hours []int  `json:"hours"`
+	Calc  []int  `json:"calc"`
+}
+
+type vwVTxn struct {
+	Hash string  `json:"hash"`
+	Ins  []vwVIn `json:"ins"`
+}
+
+type vwVBlock struct {
+	Hash string   `json:"hash"`
+	Txns []vwVTxn `json:"txns"`
+}
+
+type vwStatus struct {
+	Hash      string  `json:"hash"`
+	Found     bool    `json:"found"`
+	Confirmed bool    `json:"confirmed"`
+	Height    uint64  `json:"height"`
+	BlockSeq  uint64  `json:"blockSeq"`
+	Time      uint64  `json:"time"`
+	Verbose   bool    `json:"verbose"`
+	Ins       []vwVIn `json:"ins"`
+}
+
+// further views (block queries by sequence list / since / verbose, transaction status, pool queries, summary, rich list)
+type vwMore struct {
+	Seqs          []uint64   `json:"seqs"`
+	BySeqs        []string   `json:"bySeqs"`
+	MissingSeqErr bool       `json:"missingSeqErr"`
+	SinceSeq      uint64     `json:"sinceSeq"`
+	SinceCt       uint64     `json:"sinceCt"`
+	Since         []string   `json:"since"`
+	MetaHeadSeq   uint64     `json:"metaHeadSeq"`
+	MetaHeadHash  string     `json:"metaHeadHash"`
+	MetaUnspents  uint64     `json:"metaUnspents"`
+	MetaPool      uint64     `json:"metaPool"`
+	PoolFlags     []vpEntry  `json:"poolFlags"`
+	ValidPool     []string   `json:"validPool"`
+	KnownQ        []string   `json:"knownQ"`
+	Known         []string   `json:"known"`
+	Unknown       []string   `json:"unknown"`
+	Status        []vwStatus `json:"status"`
+	VFrom         uint64     `json:"vFrom"`
+	VTo           uint64     `json:"vTo"`
+	VRange        []vwVBlock `json:"vRange"`
+	VLastN        uint64     `json:"vLastN"`
+	VLast         []vwVBlock `json:"vLast"`
+	SumFilter     []string   `json:"sumFilter"`
+	SumOK         bool       `json:"sumOK"`
+	SumConfirmed  []string   `json:"sumConfirmed"`
+	SumOutgoing   []string   `json:"sumOutgoing"`
+	SumIncoming   []string   `json:"sumIncoming"`
+	RichOK        bool       `json:"richOK"`
+	RichAll       []vwRich   `json:"richAll"`
+	RichNoDist    []vwRich   `json:"richNoDist"`
+	DistAddrs     []string   `json:"distAddrs"`
+	LockedAddrs   []string   `json:"lockedAddrs"`
+	Errs          []string   `json:"errs"`
+}
+
+type vwRich struct {
+	Addr   string `json:"addr"`
+	Coins  []int  `json:"coins"`
+	Locked bool   `json:"locked"`
+}
+
 type vwRec struct {
+	More        vwMore         `json:"more"`
 	Ev          string         `json:"ev"`
 	Hist        int            `json:"hist"`
 	Step        int            `json:"step"`
@@ -347,5 +419,231 @@ func vwViews(t *testing.T, N *vlNode, node, phase string, addrs []cipher.Address
 			})
 		}
 	}
+	r.More = vwMoreViews(N, head, ptxns, r.Chain, addrs, seed)
 	return r
+}
+
+func vwVIns(ins []TransactionInput) []vwVIn {
+	o := []vwVIn{}
+	for _, in := range ins {
+		o = append(o, vwVIn{ID: in.UxOut.Hash().Hex(), Addr: in.UxOut.Body.Address.String(), Coins: vlLimbs(in.UxOut.Body.Coins), Hours: vlLimbs(in.UxOut.Body.Hours), Calc: vlLimbs(in.CalculatedHours)})
+	}
+	return o
+}
+
+func vwVBlocks(bs []coin.SignedBlock, ins [][][]TransactionInput) ([]vwVBlock, error) {
+	o := []vwVBlock{}
+	if len(bs) != len(ins) {
+		return o, fmt.Errorf("%d input lists for %d blocks", len(ins), len(bs))
+	}
+	for i, b := range bs {
+		vb := vwVBlock{Hash: b.HashHeader().Hex(), Txns: []vwVTxn{}}
+		if len(ins[i]) != len(b.Body.Transactions) {
+			return o, fmt.Errorf("block %d: %d input lists for %d transactions", b.Head.BkSeq, len(ins[i]), len(b.Body.Transactions))
+		}
+		for k, txn := range b.Body.Transactions {
+			vb.Txns = append(vb.Txns, vwVTxn{Hash: txn.Hash().Hex(), Ins: vwVIns(ins[i][k])})
+		}
+		o = append(o, vb)
+	}
+	return o, nil
+}
+
+func vwMoreViews(N *vlNode, head coin.SignedBlock, ptxns coin.Transactions, chain []vwBlock, addrs []cipher.Address, seed int) vwMore {
+	m := vwMore{Seqs: []uint64{}, BySeqs: []string{}, Since: []string{}, PoolFlags: []vpEntry{}, ValidPool: []string{}, KnownQ: []string{}, Known: []string{}, Unknown: []string{},
+		Status: []vwStatus{}, VRange: []vwVBlock{}, VLast: []vwVBlock{}, SumFilter: []string{}, SumConfirmed: []string{}, SumOutgoing: []string{}, SumIncoming: []string{},
+		RichAll: []vwRich{}, RichNoDist: []vwRich{}, DistAddrs: []string{}, LockedAddrs: []string{}, Errs: []string{}}
+	n := head.Head.BkSeq + 1
+	// blocks by a list of sequence numbers (any order, repeats), and a list with a sequence number beyond the head
+	for k := 0; k < 1+seed%4; k++ {
+		m.Seqs = append(m.Seqs, uint64(seed*(k+3)+k)%n)
+	}
+	vwTry(&m.Errs, "GetBlocks", func() error {
+		bs, err := N.v.GetBlocks(m.Seqs)
+		for _, b := range bs {
+			m.BySeqs = append(m.BySeqs, b.HashHeader().Hex())
+		}
+		if err == nil {
+			_, e2 := N.v.GetBlocks(append(append([]uint64{}, m.Seqs...), n+uint64(seed%3)))
+			m.MissingSeqErr = e2 != nil
+		}
+		return err
+	})
+	m.SinceSeq, m.SinceCt = uint64(seed%5), uint64(seed%7)
+	vwTry(&m.Errs, "GetSignedBlocksSince", func() error {
+		bs, err := N.v.GetSignedBlocksSince(m.SinceSeq, m.SinceCt)
+		for _, b := range bs {
+			m.Since = append(m.Since, b.HashHeader().Hex())
+		}
+		return err
+	})
+	vwTry(&m.Errs, "GetBlockchainMetadata", func() error {
+		bm, err := N.v.GetBlockchainMetadata()
+		if err != nil {
+			return err
+		}
+		m.MetaHeadSeq, m.MetaHeadHash, m.MetaUnspents, m.MetaPool = bm.HeadBlock.Head.BkSeq, bm.HeadBlock.HashHeader().Hex(), bm.Unspents, bm.Unconfirmed
+		return nil
+	})
+	// the pool: validity flags as stored, the valid hashes, known / unknown of a mixed list
+	vwTry(&m.Errs, "GetAllUnconfirmedTransactions", func() error {
+		us, err := N.v.GetAllUnconfirmedTransactions()
+		for _, u := range us {
+			m.PoolFlags = append(m.PoolFlags, vpEntry{Hash: u.Transaction.Hash().Hex(), Valid: u.IsValid == 1})
+		}
+		return err
+	})
+	vwTry(&m.Errs, "GetAllValidUnconfirmedTxHashes", func() error {
+		hs, err := N.v.GetAllValidUnconfirmedTxHashes()
+		for _, h := range hs {
+			m.ValidPool = append(m.ValidPool, h.Hex())
+		}
+		return err
+	})
+	var q []cipher.SHA256
+	var strange cipher.SHA256
+	strange[1], strange[9] = byte(seed), 3
+	for i, txn := range ptxns {
+		if (i+seed)%3 != 0 {
+			q = append(q, txn.Hash())
+		}
+	}
+	q = append(q, strange)
+	var confirmed []cipher.SHA256
+	for _, b := range chain {
+		for _, txn := range b.Txns {
+			confirmed = append(confirmed, cipher.MustSHA256FromHex(txn.Hash))
+		}
+	}
+	q = append(q, confirmed[seed%len(confirmed)])
+	for _, h := range q {
+		m.KnownQ = append(m.KnownQ, h.Hex())
+	}
+	vwTry(&m.Errs, "GetKnownUnconfirmed", func() error {
+		ts, err := N.v.GetKnownUnconfirmed(q)
+		for _, txn := range ts {
+			m.Known = append(m.Known, txn.Hash().Hex())
+		}
+		return err
+	})
+	vwTry(&m.Errs, "FilterKnownUnconfirmed", func() error {
+		hs, err := N.v.FilterKnownUnconfirmed(q)
+		for _, h := range hs {
+			m.Unknown = append(m.Unknown, h.Hex())
+		}
+		return err
+	})
+	// the status of single transactions: some confirmed ones (the genesis transaction among them), the pending ones, a strange one
+	sq := []cipher.SHA256{confirmed[0], strange}
+	for k := 0; k < 4 && k < len(confirmed); k++ {
+		sq = append(sq, confirmed[(seed*7+k*5)%len(confirmed)])
+	}
+	for i, txn := range ptxns {
+		if i < 4 {
+			sq = append(sq, txn.Hash())
+		}
+	}
+	for i, h := range sq {
+		h, verbose := h, (i+seed)%2 == 0
+		vwTry(&m.Errs, "GetTransaction", func() error {
+			st := vwStatus{Hash: h.Hex(), Verbose: verbose, Ins: []vwVIn{}}
+			var txn *Transaction
+			var err error
+			if verbose {
+				var ins []TransactionInput
+				txn, ins, err = N.v.GetTransactionWithInputs(h)
+				st.Ins = vwVIns(ins)
+			} else {
+				txn, err = N.v.GetTransaction(h)
+			}
+			if err != nil {
+				return err
+			}
+			if txn != nil {
+				if txn.Transaction.Hash() != h {
+					return fmt.Errorf("asked for %s, got %s", h.Hex(), txn.Transaction.Hash().Hex())
+				}
+				st.Found, st.Confirmed, st.Height, st.BlockSeq, st.Time = true, txn.Status.Confirmed, txn.Status.Height, txn.Status.BlockSeq, txn.Time
+			}
+			m.Status = append(m.Status, st)
+			return nil
+		})
+	}
+	// verbose block queries: every input resolved to the output it spends, its hours as of the block before
+	m.VFrom, m.VTo = uint64(seed%3), uint64(seed%3+seed%4)
+	vwTry(&m.Errs, "GetBlocksInRangeVerbose", func() error {
+		bs, ins, err := N.v.GetBlocksInRangeVerbose(m.VFrom, m.VTo)
+		if err != nil {
+			return err
+		}
+		m.VRange, err = vwVBlocks(bs, ins)
+		return err
+	})
+	m.VLastN = uint64(1 + seed%3)
+	vwTry(&m.Errs, "GetLastBlocksVerbose", func() error {
+		bs, ins, err := N.v.GetLastBlocksVerbose(m.VLastN)
+		if err != nil {
+			return err
+		}
+		m.VLast, err = vwVBlocks(bs, ins)
+		return err
+	})
+	// the outputs summary (all, or of some addresses) and the rich list; both fail as a whole while the pool still holds a
+	// transaction whose input a block has spent (logged, not a view of a listed property)
+	var flts []OutputsFilter
+	if seed%2 == 0 && len(addrs) > 0 {
+		fa := addrs[seed%len(addrs):][:1]
+		flts = append(flts, FbyAddresses(fa))
+		m.SumFilter = append(m.SumFilter, fa[0].String())
+	}
+	func() {
+		defer func() {
+			if p := recover(); p != nil {
+				m.Errs = append(m.Errs, "GetUnspentOutputsSummary:panic")
+			}
+		}()
+		sum, err := N.v.GetUnspentOutputsSummary(flts)
+		if err != nil {
+			return
+		}
+		m.SumOK = true
+		for _, o := range sum.Confirmed {
+			m.SumConfirmed = append(m.SumConfirmed, o.Hash().Hex())
+		}
+		for _, o := range sum.Outgoing {
+			m.SumOutgoing = append(m.SumOutgoing, o.Hash().Hex())
+		}
+		for _, o := range sum.Incoming {
+			m.SumIncoming = append(m.SumIncoming, o.Hash().Hex())
+		}
+	}()
+	for _, a := range N.v.Config.Distribution.AddressesDecoded() {
+		m.DistAddrs = append(m.DistAddrs, a.String())
+	}
+	for _, a := range N.v.Config.Distribution.LockedAddressesDecoded() {
+		m.LockedAddrs = append(m.LockedAddrs, a.String())
+	}
+	func() {
+		defer func() {
+			if p := recover(); p != nil {
+				m.Errs = append(m.Errs, "GetRichlist:panic")
+			}
+		}()
+		all, err := N.v.GetRichlist(true)
+		if err != nil {
+			return
+		}
+		nod, err := N.v.GetRichlist(false)
+		if err != nil {
+			return
+		}
+		m.RichOK = true
+		for _, b := range all {
+			m.RichAll = append(m.RichAll, vwRich{Addr: b.Address.String(), Coins: vlLimbs(b.Coins), Locked: b.Locked})
+		}
+		for _, b := range nod {
+			m.RichNoDist = append(m.RichNoDist, vwRich{Addr: b.Address.String(), Coins: vlLimbs(b.Coins), Locked: b.Locked})
+		}
+	}()
+	return m
 }
